@@ -18,6 +18,12 @@ pub use candidates::{CandidateValue, Range};
 pub use dynamic::DynamicallyResolvedValue;
 pub use vertex_info::{RequiredProperty, VertexInfo};
 
+/// Verification hooks (guard: `--cfg trustfall_verif`). Add-only; not part of the public API.
+#[cfg(trustfall_verif)]
+pub mod __verif {
+    pub use super::candidates::__verif as candidates;
+}
+
 /// Contains overall information about the query being executed, such as its outputs and variables.
 #[non_exhaustive]
 #[derive(Debug, Clone, PartialEq, Eq)]
